@@ -82,7 +82,13 @@ def _case(draw, tier):
     return {"spec": spec, "combo": combo, "time": tset, "exact": exact,
             "c": draw(st.lists(st.integers(-1500, 1500).map(lambda k: k / 1000.0), min_size=4, max_size=4)),
             "outs": draw(st.lists(st.floats(0.02, 0.98), min_size=0, max_size=4)),
-            "entropy": draw(st.integers(0, 2 ** 31 - 2))}
+            "entropy": draw(st.integers(0, 2 ** 31 - 2)),
+            # how the solve is requested: through sdeint_adjoint (same forward values), with extra=True (one more return
+            # value), with adaptive steps (the augmented state takes part in the error norm, so only the oracles that do
+            # not compare with the un-augmented run apply)
+            "via_adjoint": draw(st.sampled_from([False, False, True])),
+            "extra": draw(st.sampled_from([False, False, True])),
+            "adaptive": draw(st.sampled_from([False, False, False, True]))}
 
 
 def strategy(tier):
@@ -96,7 +102,8 @@ def enumerate_cases(tier):
             yield {"spec": spec, "combo": combo, "exact": exact and not (spec["m"] > spec["d"]),
                    "time": {"t0": 0.1, "t1": 0.1 + 6 * 0.125, "dt": 0.125, "tdtype": "float64"},
                    "c": [round(rnd.uniform(-1.5, 1.5), 3) for _ in range(4)], "outs": [0.3, 0.7],
-                   "entropy": rnd.randrange(2 ** 31 - 2)}
+                   "entropy": rnd.randrange(2 ** 31 - 2), "via_adjoint": rnd.random() < 0.3, "extra": rnd.random() < 0.3,
+                   "adaptive": rnd.random() < 0.2}
 
 
 def run_case(case):
@@ -134,17 +141,33 @@ def run_case(case):
 
     opts = dict(combo["options"]) or None
     checks = 0
-    with torch.no_grad():
-        ys, lq = torchsde.sdeint(sde, y0, ts, bm=mk(), method=combo["method"], dt=tm["dt"], options=opts, logqp=True)
-        ys_plain = torchsde.sdeint(sde, y0, ts, bm=sliced(), method=combo["method"], dt=tm["dt"], options=opts)
-        y0a = torch.cat([y0, torch.zeros(B, 1, dtype=dtype)], dim=1)
-        ya = torchsde.sdeint(UserAug(sde), y0a, ts, bm=mk(), method=combo["method"], dt=tm["dt"], options=opts)
-        ts2 = torch.stack([ts[0], ts[-1]])
-        _, lq_coarse = torchsde.sdeint(sde, y0, ts2, bm=mk(), method=combo["method"], dt=tm["dt"], options=opts,
-                                       logqp=True)
+    adaptive = bool(case.get("adaptive"))
+    akw = dict(adaptive=True, rtol=1e-2, atol=1e-2, dt_min=tm["dt"] / 16) if adaptive else {}
+    entry = torchsde.sdeint_adjoint if case.get("via_adjoint") else torchsde.sdeint
 
     def fail(clause, msg):
         return Result(nontrivial=True, checks=checks, fail=Fail(clause, msg, sig))
+
+    with torch.no_grad():
+        out = entry(sde, y0, ts, bm=mk(), method=combo["method"], dt=tm["dt"], options=opts, logqp=True,
+                    extra=bool(case.get("extra")), **akw)
+        checks += 1
+        if len(out) != (3 if case.get("extra") else 2):
+            return fail("shape", f"logqp=True, extra={bool(case.get('extra'))} returned {len(out)} values")
+        ys, lq = out[0], out[1]
+        if case.get("extra"):
+            _, extra_ref = torchsde.sdeint(sde, y0, ts, bm=sliced(), method=combo["method"], dt=tm["dt"], options=opts,
+                                           extra=True, **akw)
+            checks += 1
+            if len(out[2]) != len(extra_ref):
+                return fail("shape", f"extra solver state has {len(out[2])} entries with logqp, {len(extra_ref)} without")
+        ys_plain = torchsde.sdeint(sde, y0, ts, bm=sliced(), method=combo["method"], dt=tm["dt"], options=opts) \
+            if not adaptive else ys
+        y0a = torch.cat([y0, torch.zeros(B, 1, dtype=dtype)], dim=1)
+        ya = torchsde.sdeint(UserAug(sde), y0a, ts, bm=mk(), method=combo["method"], dt=tm["dt"], options=opts, **akw)
+        ts2 = torch.stack([ts[0], ts[-1]])
+        _, lq_coarse = torchsde.sdeint(sde, y0, ts2, bm=mk(), method=combo["method"], dt=tm["dt"], options=opts,
+                                       logqp=True, **akw)
 
     checks += 1
     if tuple(lq.shape) != (len(ts) - 1, B) or tuple(ys.shape) != (len(ts), B, d):
@@ -177,7 +200,8 @@ def run_case(case):
         if not e_exact <= 1e-10:
             return fail("exact_half_c_squared", f"f-h=g c with c={c.tolist()}: logqp != 1/2|c|^2 dt, rel {e_exact:.3e}")
     steps = (tm["t1"] - tm["t0"]) / tm["dt"]
-    labels = [solve.combo_label(combo), "exact_variant" if case["exact"] else "generic_variant"]
+    labels = [solve.combo_label(combo), "exact_variant" if case["exact"] else "generic_variant"] + \
+        [k for k in ("via_adjoint", "extra", "adaptive") if case.get(k)]
     return Result(nontrivial=len(ts) >= 3 and steps >= 3, labels=labels, checks=checks,
                   metrics={"state_err_in_eps": e_state / eps, "additivity_err": e_add, "augmentation_err": e_aug,
                            "exact_err": e_exact})
